@@ -183,6 +183,12 @@ def gen(ctx):
             add(v2(cmd, fam, 1, full, length=65535), 'v2-len')
     add(v2(1, 1, 1, block(1, rnd) + b'\x01\xff\xff' + b'x' * 10), 'v2-len')             # TLV longer than the block
     add(v2(1, 1, 1, block(1, rnd) + b'\x01\x00'), 'v2-len')                             # truncated TLV header
+    if ctx.thorough:                                                                     # the largest block the length field can announce
+        blk = block(1, rnd) + tlv(0x30, bytes(j & 255 for j in range(65535 - 12 - 3)))
+        assert len(blk) == 65535
+        add(v2(1, 1, 1, blk) + b'G', 'v2-len')
+        add(v2(1, 1, 1, blk)[:-1], 'v2-len')
+        add(v2(1, 1, 1, blk[:-1], length=65535), 'v2-len')
     # byte mutations of the fixed part and of the TLV area
     b2 = v2(1, 1, 1, bytes([1, 2, 3, 4, 5, 6, 7, 8, 0, 80, 1, 187]) + tlv(4, b'\x07') + tlv(1, b'h2')) + b'G'
     pos = range(len(b2)) if ctx.thorough else sorted(set(range(11, 17)) | set(rnd.sample(range(len(b2)), 10)))
